@@ -17,6 +17,10 @@ class Contract:
         # never assumed by callers (the callee's events are not part of the caller's trace)
         self.trace = [c for c in ens if _is_trace(c[1])] + _named(kw.pop("trace", []), "trace")
         self.ensures = [c for c in ens if not _is_trace(c[1])]
+        g = kw.pop("ensures_guard", None)    # every postcondition is stated under this condition on the entry state
+        self.ensures_guard = g
+        if g:
+            self.ensures = [(n, f"implies({g}, {t})") for n, t in self.ensures]
         self.raises = kw.pop("raises", {})          # ExcName -> dict(when=expr|None, ensures=[...], unchanged=bool)
         self.raises_only = kw.pop("raises_only", None)  # None or set of exception names allowed to escape
         self.on_raise = _named(kw.pop("on_raise", []), "exc")  # obligations on every exceptional exit
@@ -29,6 +33,10 @@ class Contract:
         # ghost outputs: names of locals of the body whose final values the postcondition mentions; at call sites they
         # are fresh (Skolem) symbols constrained only by the postcondition
         self.ghost_out = kw.pop("ghost_out", {})
+        # parameters that denote mutable containers the callee updates in place (e.g. an `info` dict): in the
+        # postcondition the parameter name denotes the final content, old(name) the content at entry; at call sites the
+        # caller's variable is rebound to the final content
+        self.out_params = kw.pop("out_params", [])
         self.ghost_entry = kw.pop("ghost_entry", [])  # ghost statements run at entry
         self.ghost_exit = kw.pop("ghost_exit", [])    # ghost statements run before normal return checks
         self.ghost_after = kw.pop("ghost_after", {})  # 'call:<name>#k' -> [ghost stmts] run after that call
